@@ -15,10 +15,13 @@ package main
 //
 // Each case is evaluated repeatedly in this process (fresh compilation each time) and in
 // fresh subprocesses; every sequence of fork id strings must equal the first one and the
-// expected one.
+// expected one.  The expected order is NOT written down here any more: it is the reply of the
+// Lean model Martian.ForkOrder (driver op C10.forkorder) for the same roots / key sets (the
+// comment above paraphrases the model); harness/c10_forkmodel.go compares many more shapes.
 
 import (
 	"bytes"
+	"encoding/hex"
 	"encoding/json"
 	"fmt"
 	"math/rand"
@@ -38,7 +41,12 @@ type c10ForkCase struct {
 	Src    string            `json:"src"`
 	Fqid   string            `json:"fqid"` // without the ID.<psid>. prefix
 	Outs   map[string]string `json:"outs,omitempty"`
-	Expect []string          `json:"expect,omitempty"`
+	Expect []string          `json:"expect,omitempty"` // corpus cases only; generated cases ask the model
+	// input of the Lean model Martian.ForkOrder (driver op C10.forkorder) whose reply is the expected order
+	ModelRoots string `json:"model_roots,omitempty"`
+	ModelTable string `json:"model_table,omitempty"`
+	ModelRt    string `json:"model_rt,omitempty"`
+	MinReps    int    `json:"min_reps,omitempty"`
 }
 
 const c10ForkStages = `stage STAGE(
@@ -93,22 +101,30 @@ func c10ForkMapLit(rng *rand.Rand, keys []string, indent string) string {
 	return sb.String()
 }
 
-// the list order the contract above gives
-func c10ForkExpected(outer []string, inner [][]string) []string {
-	var out []string
-	sorted := make([][]string, len(inner))
-	for i, ks := range inner {
-		s := append([]string(nil), ks...)
-		sort.Strings(s)
-		sorted[i] = s
-		out = append(out, outer[i]+"/fork_"+core.VerifMakeKeySafe(s[0]))
+// the model's notation: m<hex>,<hex>,… for a key set (in the order given: the model sorts)
+func c10ForkModelKeys(keys []string) string {
+	hs := make([]string, len(keys))
+	for i, k := range keys {
+		hs[i] = hex.EncodeToString([]byte(k))
 	}
-	for i, s := range sorted {
-		for _, k := range s[1:] {
-			out = append(out, outer[i]+"/fork_"+core.VerifMakeKeySafe(k))
+	return "m" + strings.Join(hs, ",")
+}
+
+// a fork of the model's reply (`i0+k6162`) as the fork id string the real code prints (`fork0/fork_ab`)
+func c10ForkModelIdString(fork string) string {
+	parts := strings.Split(fork, "+")
+	for i, p := range parts {
+		switch {
+		case strings.HasPrefix(p, "i"):
+			parts[i] = "fork" + p[1:]
+		case strings.HasPrefix(p, "k"):
+			b, _ := hex.DecodeString(p[1:])
+			parts[i] = "fork_" + core.VerifMakeKeySafe(string(b))
+		default:
+			parts[i] = "fork?" + p
 		}
 	}
-	return out
+	return strings.Join(parts, "/")
 }
 
 func c10ForkCases(rng *rand.Rand) []c10ForkCase {
@@ -130,14 +146,16 @@ func c10ForkCases(rng *rand.Rand) []c10ForkCase {
 			}
 		}
 		var lit strings.Builder
-		var outer []string
+		var roots string
+		var table []string
 		if outerKind == "array" {
 			lit.WriteString("[\n")
 			for i, ks := range inner {
 				lit.WriteString("        " + c10ForkMapLit(rng, ks, "        ") + ",\n")
-				outer = append(outer, fmt.Sprintf("fork%d", i))
+				table = append(table, fmt.Sprintf("1:i%d=%s", i, c10ForkModelKeys(ks)))
 			}
 			lit.WriteString("    ]")
+			roots = fmt.Sprintf("a%d;d", n)
 		} else {
 			okeys := c10ForkKeys(rng, n, map[string]bool{})
 			lit.WriteString("{\n")
@@ -145,23 +163,15 @@ func c10ForkCases(rng *rand.Rand) []c10ForkCase {
 				fmt.Fprintf(&lit, "        %q: %s,\n", okeys[i], c10ForkMapLit(rng, ks, "        "))
 			}
 			lit.WriteString("    }")
-			// outer forks come in ascending outer key order: permute the inner lists accordingly
-			idx := make([]int, n)
-			for i := range idx {
-				idx[i] = i
+			for i, ks := range inner {
+				table = append(table, fmt.Sprintf("1:k%s=%s", hex.EncodeToString([]byte(okeys[i])), c10ForkModelKeys(ks)))
 			}
-			sort.Slice(idx, func(a, b int) bool { return okeys[idx[a]] < okeys[idx[b]] })
-			sortedInner := make([][]string, n)
-			for j, i := range idx {
-				outer = append(outer, "fork_"+core.VerifMakeKeySafe(okeys[i]))
-				sortedInner[j] = inner[i]
-			}
-			inner = sortedInner
+			roots = c10ForkModelKeys(okeys) + ";d"
 		}
 		src := c10ForkStages + "\nmap call INNER(\n    nums = split " + lit.String() + ",\n)\n"
 		cases = append(cases, c10ForkCase{Name: fmt.Sprintf("static-%s-outer-%d", outerKind, len(cases)),
 			Class: "static-ragged-map-in-" + outerKind + "-call", Src: src, Fqid: "INNER.STAGE",
-			Expect: c10ForkExpected(outer, inner)})
+			ModelRoots: roots, ModelTable: strings.Join(table, "/"), ModelRt: "."})
 	}
 	// ---- run time: the map (of maps) is the output of an upstream stage ----
 	{
@@ -171,12 +181,6 @@ func c10ForkCases(rng *rand.Rand) []c10ForkCase {
 			m[k] = i
 		}
 		outs, _ := json.Marshal(map[string]interface{}{"m": m})
-		sorted := append([]string(nil), keys...)
-		sort.Strings(sorted)
-		var expect []string
-		for _, k := range sorted {
-			expect = append(expect, "fork_"+core.VerifMakeKeySafe(k))
-		}
 		src := `stage PRODUCE(
     in  int      x,
     out map<int> m,
@@ -212,15 +216,15 @@ call TOP(
 )
 `
 		cases = append(cases, c10ForkCase{Name: "runtime-single", Class: "runtime-map-call", Src: src, Fqid: "TOP.STAGE",
-			Outs: map[string]string{"TOP.PRODUCE": string(outs)}, Expect: expect})
+			Outs:       map[string]string{"TOP.PRODUCE": string(outs)},
+			ModelRoots: "d", ModelTable: ".", ModelRt: "0:.=" + c10ForkModelKeys(keys)})
 	}
 	{
 		// (MRO has no map<map<..>>: the outer collection is an array of maps)
 		n := 2 + rng.Intn(3)
 		taken := map[string]bool{}
 		var mm []map[string]int
-		var outer []string
-		var inner [][]string
+		rtTable := []string{fmt.Sprintf("0:.=a%d", n)}
 		for o := 0; o < n; o++ {
 			ks := c10ForkKeys(rng, 2+rng.Intn(11), taken)
 			m := map[string]int{}
@@ -228,8 +232,7 @@ call TOP(
 				m[k] = i
 			}
 			mm = append(mm, m)
-			outer = append(outer, fmt.Sprintf("fork%d", o))
-			inner = append(inner, ks)
+			rtTable = append(rtTable, fmt.Sprintf("1:i%d=%s", o, c10ForkModelKeys(ks)))
 		}
 		outs, _ := json.Marshal(map[string]interface{}{"mm": mm})
 		src := `stage PRODUCE(
@@ -262,7 +265,28 @@ call TOP(
 )
 `
 		cases = append(cases, c10ForkCase{Name: "runtime-nested", Class: "runtime-ragged-map-in-array-call", Src: src, Fqid: "TOP.INNER.STAGE",
-			Outs: map[string]string{"TOP.PRODUCE": string(outs)}, Expect: c10ForkExpected(outer, inner)})
+			Outs:       map[string]string{"TOP.PRODUCE": string(outs)},
+			ModelRoots: "d;d", ModelTable: ".", ModelRt: strings.Join(rtTable, "/")})
+	}
+	// ---- several split arguments of one call on ONE source line, of different static knowledge:
+	// a nested literal (the inner forks can be enumerated at compile time) and a run-time value
+	// (they cannot).  Which split represents the call (unifyMapSources / sortedSplitList) decided
+	// whether MakeForkIds lists `fork0/fork0 …` or undetermined forks: fix "splits on one line".
+	for _, kind := range []string{"array", "map"} {
+		elemT, lit1, lit2 := "int[]", "[[1, 2], [3, 4, 5]]", "[[6, 7], [8, 9, 10]]"
+		if kind == "map" {
+			elemT, lit1, lit2 = "map<int>", `[{"b": 1, "a": 2}, {"c": 3, "a": 4, "d": 5}]`, `[{"a": 6, "b": 7}, {"d": 8, "c": 9, "a": 10}]`
+		}
+		src := "stage PRODUCE(\n    in  int x,\n    out " + elemT + "[] ys,\n    src comp \"mock\",\n)\n\n" +
+			"stage LEAF(\n    in  int a,\n    in  int b,\n    in  int c,\n    in  int d,\n    in  int e,\n    out int r,\n    src comp \"mock\",\n)\n\n" +
+			"pipeline INNER(\n    in  " + elemT + " xs,\n    in  " + elemT + " ys,\n    in  " + elemT + " zs,\n    in  " + elemT + " ws,\n    in  " + elemT + " vs,\n    out int r,\n)\n{\n" +
+			"    map call LEAF(c = split self.zs, a = split self.ys, e = split self.vs, b = split self.xs, d = split self.ws,)\n\n" +
+			"    return (\n        r = 1,\n    )\n}\n\n" +
+			"pipeline TOP(\n    out int r,\n)\n{\n    call PRODUCE(\n        x = 1,\n    )\n\n" +
+			"    map call INNER(\n        xs = split " + lit1 + ",\n        ys = split PRODUCE.ys,\n        zs = split PRODUCE.ys,\n        ws = split " + lit2 + ",\n        vs = split " + lit1 + ",\n    )\n\n" +
+			"    return (\n        r = 1,\n    )\n}\n\ncall TOP()\n"
+		cases = append(cases, c10ForkCase{Name: "splits-on-one-line-" + kind, Class: "split-arguments-on-one-source-line-" + kind,
+			Src: src, Fqid: "TOP.INNER.LEAF", MinReps: 200})
 	}
 	return cases
 }
@@ -276,11 +300,31 @@ func c10ForkObserve(rt *core.Runtime, scratch string, cs *c10ForkCase, n int) (o
 	}()
 	var sb strings.Builder
 	if cs.Outs == nil {
-		ids, err := core.VerifCompiledForkIds(cs.Src, cs.Fqid)
-		if err != nil {
-			return "ERR:" + err.Error()
+		if cs.MinReps == 0 {
+			ids, err := core.VerifCompiledForkIds(cs.Src, cs.Fqid)
+			if err != nil {
+				return "ERR:" + err.Error()
+			}
+			sb.WriteString("MakeForkIds: " + strings.Join(ids, " ") + "\n")
+		} else {
+			// forks with undetermined parts have no id string: the model's part notation, and the
+			// serialized call graph
+			_, forks, err := core.VerifC10CompiledForkParts(cs.Src, cs.Fqid)
+			if err != nil {
+				return "ERR:" + err.Error()
+			}
+			sb.WriteString("MakeForkIds(parts): " + strings.Join(forks, " ") + "\n")
+			cgText := "ERR"
+			if _, _, ast, err := syntax.ParseSourceBytes([]byte(cs.Src), "forkorder.mro", nil, false); err != nil {
+				cgText = "ERR:" + err.Error()
+			} else if cg, err := ast.MakePipelineCallGraph("ID.ps.", ast.Call); err != nil {
+				cgText = "CGERR:" + err.Error()
+			} else {
+				b, _ := json.Marshal(cg)
+				cgText = string(b)
+			}
+			sb.WriteString("CallGraph(sha): " + c10Hash(cgText) + "\n")
 		}
-		sb.WriteString("MakeForkIds: " + strings.Join(ids, " ") + "\n")
 	}
 	if rt == nil {
 		return sb.String()
@@ -369,6 +413,33 @@ func c10ForkOrder(c *Ctx, rt *core.Runtime) {
 		}
 	}
 	cases = append(cases, c10ForkCases(c.Rng)...)
+	// the expected order = the reply of the Lean model Martian.ForkOrder for the same input
+	{
+		var reqs [][]string
+		var idx []int
+		for i := range cases {
+			if cs := &cases[i]; cs.ModelRoots != "" {
+				reqs = append(reqs, []string{"C10.forkorder", cs.ModelRoots, cs.ModelTable, cs.ModelRt})
+				idx = append(idx, i)
+			}
+		}
+		if len(reqs) > 0 && c.Drv != nil {
+			for j, rep := range c.Drv.AskBatch(reqs) {
+				cs := &cases[idx[j]]
+				if rep == "bad-op" || rep == "" {
+					r.note("fork-order case %s: the model rejected %v", cs.Name, reqs[j])
+					continue
+				}
+				cs.Expect = nil
+				if rep != "." {
+					for _, f := range strings.Split(rep, ";") {
+						cs.Expect = append(cs.Expect, c10ForkModelIdString(f))
+					}
+				}
+				r.hist("fork-order-expectation:from the Lean model")
+			}
+		}
+	}
 	first := make([]string, len(cases))
 	for i := range cases {
 		cs := &cases[i]
@@ -398,8 +469,8 @@ func c10ForkOrder(c *Ctx, rt *core.Runtime) {
 				got := strings.Fields(line[j+2:])
 				if cs.Expect != nil && strings.Join(got, " ") != strings.Join(cs.Expect, " ") {
 					r.violate(Violation{Kind: "property", Key: "C10:fork-order-not-sorted:" + cs.Class,
-						What: fmt.Sprintf("the forks of %s are not listed in the order of the sorted keys (%s, repetition %d): outer order x ascending inner keys, "+
-							"the expanded fork keeps its place with the smallest key", cs.Fqid, line[:j], rep),
+						What: fmt.Sprintf("the forks of %s are not listed in the order the Lean model Martian.ForkOrder gives for this input (%s, repetition %d): "+
+							"sorted keys, the expanded fork keeps its place with the smallest key, the others are appended", cs.Fqid, line[:j], rep),
 						Input: input, Impl: strings.Join(got, " "), Expect: strings.Join(cs.Expect, " "),
 						Broken: "Props.C10.forkKeyParts_order_independent (the fork keys are not sorted before they are enumerated)"})
 					return false
@@ -408,7 +479,11 @@ func c10ForkOrder(c *Ctx, rt *core.Runtime) {
 			return true
 		}
 		checkExpected(first[i], 0)
-		for k, ok := 1, true; k < reps && ok; k++ {
+		nrep := reps
+		if cs.MinReps > nrep {
+			nrep = cs.MinReps
+		}
+		for k, ok := 1, true; k < nrep && ok; k++ {
 			got := c10ForkObserve(rt, c.Scratch, cs, k)
 			r.Evals++
 			if got != first[i] {
